@@ -2,11 +2,14 @@ package main
 
 import (
 	"context"
+	"errors"
 	"flag"
 	"fmt"
 	"math/rand"
 	"os"
+	"runtime"
 	"sort"
+	"strings"
 	"sync"
 	"sync/atomic"
 	"time"
@@ -18,7 +21,60 @@ func init() { commands["stress"] = stressRun }
 
 type stCall struct {
 	prev, res, at int64
+	inst          int  // which trigger instance of the job was asked (every ScheduleJob of the storm passes a new one)
+	err           bool // the instance answered with its end-of-schedule error (res is meaningless)
+	api           bool // asked by ResumeJob / ScheduleJob themselves (they are on the call stack), not by the execution loop
 }
+
+// calledFromAPI reports whether the public ResumeJob or ScheduleJob of the scheduler is on the caller's stack: these calls ask the
+// trigger themselves (and, with a trigger that has ended, fail and leave the job as it was).
+func calledFromAPI() bool {
+	var pcs [24]uintptr
+	n := runtime.Callers(2, pcs[:])
+	frames := runtime.CallersFrames(pcs[:n])
+	for {
+		f, more := frames.Next()
+		if strings.HasSuffix(f.Function, "(*StdScheduler).ResumeJob") || strings.HasSuffix(f.Function, "(*StdScheduler).ScheduleJob") {
+			return true
+		}
+		if !more {
+			return false
+		}
+	}
+}
+
+// errStDone is a trigger's own way of saying "no further fire time" (deliberately not quartz.ErrTriggerExpired).
+var errStDone = errors.New("stress harness: schedule of this trigger is complete")
+
+// stInst is one trigger instance of a job: it answers like its parent (prev + interval) at most `left` times (-1: for ever) and
+// then ends with endErr; every call is recorded in the parent's log. All instances have the same Description().
+type stInst struct {
+	parent *stTrigger
+	id     int
+	left   int
+	endErr error
+}
+
+func (t *stInst) NextFireTime(prev int64) (int64, error) {
+	p := t.parent
+	if p.slow {
+		spin(30 * time.Microsecond)
+	}
+	api := calledFromAPI()
+	p.mu.Lock()
+	defer p.mu.Unlock()
+	if t.left == 0 {
+		p.calls = append(p.calls, stCall{prev, 0, quartz.NowNano(), t.id, true, api})
+		return 0, t.endErr
+	}
+	if t.left > 0 {
+		t.left--
+	}
+	res := prev + p.interval
+	p.calls = append(p.calls, stCall{prev, res, quartz.NowNano(), t.id, false, api})
+	return res, nil
+}
+func (t *stInst) Description() string { return "st" }
 
 // stTrigger behaves like a SimpleTrigger and records every call with the clock reading at the call.
 type stTrigger struct {
@@ -34,7 +90,7 @@ func (t *stTrigger) NextFireTime(prev int64) (int64, error) {
 	}
 	res := prev + t.interval
 	t.mu.Lock()
-	t.calls = append(t.calls, stCall{prev, res, quartz.NowNano()})
+	t.calls = append(t.calls, stCall{prev, res, quartz.NowNano(), 0, false, false})
 	t.mu.Unlock()
 	return res, nil
 }
@@ -99,6 +155,38 @@ func stressRun(args []string) int {
 			}
 		}
 	}
+	// ResumeJob on a contended queue lock (a sync.Locker with latency), PauseJob from a second goroutine in between: the four
+	// configurations side by side (each takes about 0.2 s of waiting)
+	{
+		type rc struct {
+			mode    int
+			vs      []string
+			reached bool
+		}
+		ch := make(chan rc, 4)
+		for _, m := range []int{-1, 0, 1, 2} {
+			go func(m int) {
+				var out rc
+				out.mode = m
+				for try := 0; try < 3 && !out.reached; try++ {
+					out.vs, out.reached = stressResumeContention(m)
+				}
+				ch <- out
+			}(m)
+		}
+		for i := 0; i < 4; i++ {
+			out := <-ch
+			if out.reached {
+				evals++
+				dist["events"]["resume-on-contended-lock:reached"]++
+			} else {
+				dist["events"]["resume-on-contended-lock:not-reached"]++
+			}
+			for _, v := range out.vs {
+				flagV(v)
+			}
+		}
+	}
 	for run := 0; run < *n; run++ {
 		mode := run % 3
 		k := 1 + (run/3)%3
@@ -107,6 +195,9 @@ func stressRun(args []string) int {
 			q = &slowQ{JobQueue: q}
 		}
 		lk := &sync.Mutex{}
+		// "jobs scheduled before Start, fire times already in the past": in some runs the schedulers are started 350 ms after the jobs
+		// were scheduled, i.e. later than OutdatedThreshold (300 ms) plus several periods: a misfire that spans more than one occurrence
+		late := run%4 == 3
 		var scheds []quartz.Scheduler
 		ctx, cancel := context.WithCancel(context.Background())
 		for i := 0; i < k; i++ {
@@ -119,7 +210,9 @@ func stressRun(args []string) int {
 			}
 			s, err := quartz.NewStdScheduler(opts...)
 			must(err)
-			s.Start(ctx)
+			if !late {
+				s.Start(ctx)
+			}
 			scheds = append(scheds, s)
 		}
 		const J = 6
@@ -127,6 +220,22 @@ func stressRun(args []string) int {
 		jobs := make([]*stJob, J)
 		dets := make([]*quartz.JobDetail, J)
 		events := make([][]apiEvent, J)
+		// every ScheduleJob passes a new trigger instance: two in three answer for ever, the others have 1, 2, 4 or 16 fire times and
+		// then end with an error of their own (bare / wrapped) or with quartz.ErrTriggerExpired
+		ninst := 0
+		newInst := func(j int) *stInst {
+			ninst++
+			in := &stInst{parent: trigs[j], id: ninst, left: -1}
+			kind := "endless"
+			if r.Intn(3) == 0 {
+				in.left = []int{1, 2, 4, 16}[r.Intn(4)]
+				ek := r.Intn(3)
+				in.endErr = []error{errStDone, fmt.Errorf("no more fire times: %w", errStDone), quartz.ErrTriggerExpired}[ek]
+				kind = "finite:" + []string{"own-error", "own-error-wrapped", "expired"}[ek]
+			}
+			dist["events"]["trigger-instance:"+kind]++
+			return in
+		}
 		for j := 0; j < J; j++ {
 			trigs[j] = &stTrigger{interval: int64(time.Duration(3+r.Intn(15)) * time.Millisecond), slow: run%2 == 1}
 			jobs[j] = &stJob{r: rand.New(rand.NewSource(*seed*1000 + int64(run*10+j))), maxMicros: 1500}
@@ -137,8 +246,15 @@ func stressRun(args []string) int {
 			o.Replace = true
 			dets[j] = quartz.NewJobDetailWithOptions(jobs[j], quartz.NewJobKeyWithGroup(fmt.Sprintf("j%d", j), "stress"), o)
 			inv := quartz.NowNano()
-			err := scheds[0].ScheduleJob(dets[j], trigs[j])
+			err := scheds[0].ScheduleJob(dets[j], newInst(j))
 			events[j] = append(events[j], apiEvent{"schedule", inv, quartz.NowNano(), err == nil})
+		}
+		if late {
+			time.Sleep(350 * time.Millisecond)
+			for _, s := range scheds {
+				s.Start(ctx)
+			}
+			dist["events"]["late-start"]++
 		}
 		end := time.Now().Add(*dur)
 		for time.Now().Before(end) {
@@ -168,7 +284,9 @@ func stressRun(args []string) int {
 				err = s.DeleteJob(key)
 			case "schedule":
 				dets[j].Options().Suspended = false
-				err = s.ScheduleJob(dets[j], trigs[j])
+				in := newInst(j)
+				inv = quartz.NowNano()
+				err = s.ScheduleJob(dets[j], in)
 			}
 			events[j] = append(events[j], apiEvent{kind, inv, quartz.NowNano(), err == nil})
 			dist["events"][kind+":"+b01(err == nil)]++
@@ -194,18 +312,26 @@ func stressRun(args []string) int {
 			execs := append([]int64{}, jobs[j].execs...)
 			jobs[j].mu.Unlock()
 			evals += len(calls) + len(execs)
-			results := map[int64]bool{}
+			// a fire time is an answer of the SAME trigger instance: an entry that runs at a time which another instance (the trigger
+			// it replaced) or nobody produced is not consumed, and its execution shows up below as one without a fire time
+			type instTime struct {
+				inst int
+				t    int64
+			}
+			results := map[instTime]bool{}
 			var consumed []int64 // fire times handed back to the trigger = consumed by an on-time dispatch
-			seenPrev := map[int64]bool{}
+			seenPrev := map[instTime]bool{}
 			for _, c := range calls {
-				if results[c.prev] {
-					if seenPrev[c.prev] {
+				if results[instTime{c.inst, c.prev}] {
+					if seenPrev[instTime{c.inst, c.prev}] {
 						flagV(fmt.Sprintf("C03 fire time %d of job j%d was consumed twice (mode %d, %d schedulers)", c.prev, j, mode, k))
 					}
-					seenPrev[c.prev] = true
+					seenPrev[instTime{c.inst, c.prev}] = true
 					consumed = append(consumed, c.prev)
 				}
-				results[c.res] = true
+				if !c.err {
+					results[instTime{c.inst, c.res}] = true
+				}
 			}
 			if len(consumed)-len(execs) > k+2 {
 				// an on-time dispatch hands the fire time back to the trigger first and then executes; at shutdown at most one
@@ -237,7 +363,7 @@ func stressRun(args []string) int {
 				case "resume", "schedule":
 					if inactiveFrom >= 0 {
 						for _, c := range calls {
-							if c.at > inactiveFrom && c.at < e.inv {
+							if c.at > inactiveFrom && c.at < e.inv && !c.api { // (a ResumeJob / ScheduleJob that failed on an ended trigger has asked it: not the loop)
 								flagV(fmt.Sprintf("C08 trigger of job j%d was asked for a fire time %d ns after Pause/Delete had returned and before it was resumed (mode %d, %d schedulers)", j, c.at-inactiveFrom, mode, k))
 							}
 						}
@@ -247,7 +373,7 @@ func stressRun(args []string) int {
 			}
 			if inactiveFrom >= 0 {
 				for _, c := range calls {
-					if c.at > inactiveFrom {
+					if c.at > inactiveFrom && !c.api {
 						flagV(fmt.Sprintf("C08 trigger of job j%d was asked for a fire time after Pause/Delete had returned (mode %d, %d schedulers)", j, mode, k))
 					}
 				}
